@@ -194,7 +194,12 @@ def make_args(params, *, bad_at=None, style_seed=0, n_va=2, n_vk=2, omit_default
             args.extend(vs)
             recv[p["name"]] = tuple(vs)
         else:
-            vs = {f"extra_kw{j}": (bad_value(p["ann"], i + j) if bad else good_value(p["ann"], i + 10 * j)) for j in range(n_vk)}
+            # extra keywords are spelled like the identifiers the wrapper generates for itself (ret0, T0, ...) unless
+            # that name is a parameter of this signature
+            taken = {q["name"] for q in params}
+            pool = [n for n in ("ret0", "T0", "default0", "fn0", "ret1", "bound", "memos", "extra_kw0", "extra_kw1") if n not in taken]
+            start = style_seed % max(1, len(pool) - n_vk + 1)
+            vs = {pool[start + j]: (bad_value(p["ann"], i + j) if bad else good_value(p["ann"], i + 10 * j)) for j in range(min(n_vk, len(pool)))}
             kwargs.update(vs)
             recv[p["name"]] = vs
     return args, kwargs, recv
